@@ -28,6 +28,7 @@ static const suite_t CHAINED[] = {
 typedef struct {
         int a, h, dir;
         int a2, h2, dir2, mixed; /* mixed: jobs of two different suites that share an OOO manager in one schedule */
+        int gen;                 /* generated product unit: always explored with the quick bounds (there are thousands of them) */
         char name[96];
 } unit_t;
 /* pairs of suites sharing an out-of-order manager (second stage of one is dispatched while the other is parked) */
@@ -55,6 +56,7 @@ static uint8_t *pristine;
 static size_t mgr_sz;
 static keyset_t *KS[2];
 static int g_v, thorough;
+#define DEEP (thorough && !U->gen)
 static unit_t *U;
 static uint32_t LENS2[2][4], HLENS2[2][4];
 #define LENS (LENS2[cur_suite])
@@ -385,7 +387,7 @@ run_unit_variant(long item, void *arg)
         g_v = (int) (item % NVARIANTS);
         if (!variant_usable(g_v))
                 return;
-        int kmax = thorough ? 2 : 1;
+        int kmax = DEEP ? 2 : 1;
         m = mgr_new(g_v);
         mgr_sz = imb_get_mb_mgr_size();
         pristine = malloc(mgr_sz);
@@ -449,7 +451,7 @@ run_unit_variant(long item, void *arg)
                                                         SUITE_OF[i] = (uint8_t) ((i < h) ? first : !first);
                                                 sched_t sc = { .n = n };
                                                 run_sched(&sc);
-                                                if (((h == 0 || h == n) && first) || !thorough)
+                                                if (((h == 0 || h == n) && first) || !DEEP)
                                                         continue;
                                                 for (int d1 = 0; d1 < n * 5; d1++) {
                                                         if (d1 % 5 >= 3 && d1 / 5 == 0)
@@ -462,12 +464,12 @@ run_unit_variant(long item, void *arg)
                 use_burst = 0;
                 goto out_stats;
         }
-        kmax = thorough ? 2 : 1;
+        kmax = DEEP ? 2 : 1;
         for (use_burst = 0; use_burst < 2; use_burst++)
         for (int n = 1; n <= NMAX && !deadline_reached(); n++) {
                 if (use_burst && kmax > 1)
                         kmax = 1;
-                if (!thorough && n > 18 && n < NMAX - 3)
+                if (!DEEP && n > 18 && n < NMAX - 3)
                         continue; /* quick: n = 1..18 and 31..34 */
                 int ND = n * 5;
                 sched_t sc = { .n = n };
@@ -475,7 +477,7 @@ run_unit_variant(long item, void *arg)
                 for (int d1 = 0; d1 < ND; d1++) {
                         if (d1 % 5 >= 3 && d1 / 5 == 0)
                                 continue; /* flush/getc before the first job: no-op */
-                        if (use_burst && !thorough && !(d1 / 5 == 0 || d1 / 5 == n / 2 || d1 / 5 == n - 1))
+                        if (use_burst && !DEEP && !(d1 / 5 == 0 || d1 / 5 == n / 2 || d1 / 5 == n - 1))
                                 continue; /* quick, burst API: deviations at the first, middle and last job only */
                         sc.ndev = 1;
                         sc.dev[0] = d1;
@@ -496,7 +498,7 @@ run_unit_variant(long item, void *arg)
                 }
         }
         use_burst = 0;
-        kmax = thorough ? 2 : 1;
+        kmax = DEEP ? 2 : 1;
 out_stats:
         if (deadline_reached())
                 stat_add("caps_hit", 1);
@@ -612,6 +614,7 @@ main(int argc, char **argv)
                                         u->h2 = h;
                                         u->dir2 = 0;
                                         u->mixed = 1;
+                                        u->gen = 1;
                                         snprintf(u->name, sizeof u->name, "mixed:%s+%s/enc|%s+%s/dec", CL[c1], ALGS[h].name, CL[c2], ALGS[h].name);
                                         if (strstr(u->name, filter))
                                                 NUNITS++;
